@@ -57,9 +57,13 @@ type FrameSpec struct {
 
 // WALSpec describes one WAL write transaction.
 type WALSpec struct {
-	NewPageN uint32      `json:"new_page_n"`
-	Frames   []FrameSpec `json:"frames"`  // in append order; pages may repeat and may exceed NewPageN (spill then shrink)
-	Outcome  string      `json:"outcome"` // commit | rollback | lockonly
+	NewPageN uint32 `json:"new_page_n"`
+	// ReleaseByClose: the locks are not released by explicit unlock calls; the
+	// connection's descriptors are closed instead (the connection is unusable
+	// afterwards and must be reopened).
+	ReleaseByClose bool        `json:"release_by_close,omitempty"`
+	Frames         []FrameSpec `json:"frames"`  // in append order; pages may repeat and may exceed NewPageN (spill then shrink)
+	Outcome        string      `json:"outcome"` // commit | rollback | lockonly
 	// SplitFrame: deliver header and body as separate writes (SQLite's normal
 	// behaviour); false = one combined write per frame.
 	SplitFrame bool `json:"split_frame"`
@@ -346,6 +350,16 @@ func (c *Conn) RunWALTx(spec WALSpec) (res TxResult) {
 			d.WalContent = map[uint32][]byte{}
 		}
 		res.NewImage = old
+	}
+	if spec.ReleaseByClose {
+		// the process ends (or the connection is closed) while it still holds the
+		// write lock: the kernel sends FLUSH with the lock owner for each of its
+		// descriptors, which releases every lock of that owner, and RELEASE
+		if err := d.step("close while holding WRITE"); err != nil {
+			return fail("close", err)
+		}
+		c.Close()
+		return res
 	}
 	if err := unlockWrite(); err != nil {
 		return fail("write-unlock", err)
